@@ -10,16 +10,18 @@
 (* POSCAR: lattice rows, element blocks, Direct coordinates of *all*       *)
 (* unit-cell atoms (Crystal!CellAtoms).  CIF: the keys chmpy writes.       *)
 (***************************************************************************)
-EXTENDS Reexpress
+EXTENDS Reexpress, SymopText
 
 AbsD(x) == IF x < 0 THEN -x ELSE x
 (* cell parameters agree to the precision the format writes (tol in units of 10^-6) *)
 CellClose(c1, c2, tol) == \A i \in 1..6 : AbsD(c1[i] - c2[i]) <= tol
 
 (* ---- SHELX content ---------------------------------------------------- *)
-(* each SYMM line is the canonical text of the operation the harness says it denotes *)
-SymmTextsOK(symm) == \A i \in DOMAIN symm : symm[i].code \in 0..(NCodes-1) /\ symm[i].text = ToText(Dec(symm[i].code))
-SymmCodes(symm) == [i \in DOMAIN symm |-> symm[i].code]
+(* each SYMM line is read by the specification's own reader (SymopText) from its bytes *)
+SymmTextsOK(symm) == \A i \in DOMAIN symm : ParseTextB(symm[i].bytes).ok /\ Encodable(ParseTextB(symm[i].bytes).op)
+SymmCodes(symm) == [i \in DOMAIN symm |-> Enc(ParseTextB(symm[i].bytes).op)]
+(* informational: chmpy writes the canonical text of Symop!ToText *)
+SymmTextsCanonical(symm) == \A i \in DOMAIN symm : symm[i].text = ToText(Dec(Enc(ParseTextB(symm[i].bytes).op)))
 (* LATT + SYMM denote exactly the group S *)
 ResDenotes(latt, symm, S) == AbsInt(latt) \in 1..7 /\ Describes(SymmCodes(symm), latt, S)
 (* atom lines: label, scattering-factor index -> element symbol, coordinates *)
